@@ -44,7 +44,7 @@ func (c07) WorkerEnv(cfg *core.Config, shard int) []string {
 	return []string{"VERIF_HASH_SEEDS=" + core.SeedVectorHex(cfg.Seed, shard)}
 }
 
-func c07Programs(cfg *core.Config) int { return cfg.Pick(1500, 12000) }
+func c07Programs(cfg *core.Config) int { return cfg.Pick(402, 6700) }
 
 func (c07) NumCases(cfg *core.Config) int { return c07Programs(cfg) * c07K(cfg) }
 
@@ -58,30 +58,30 @@ var c07Templates = []c07tmpl{
 	{"repr", "S", ""}, {"repr-nested", "{S, {S}, (a: S, b: T)}", ""}, {"repr-array", "[S, T, S & T]", ""},
 	{"union", "S | T", ""}, {"inter", "S & T", ""}, {"diff", "S &~ T", ""}, {"symdiff", "S ~~ T", ""},
 	{"with", "S with 424242", ""}, {"without", "S without (S orderby .)(0)", ""},
-	{"where", "S where (. count) % 2 = 0 || true", ""}, {"map", "S => [., .]", ""}, {"map-collapse", "S => (. count) % 3", ""},
-	{"orderby", "S orderby .", ""}, {"orderby-desc", "S orderby [. count, .]", ""}, {"order-fn", `S order \a \b a < b`, ""},
+	{"where", `S where \x (x count) % 2 = 0`, ""}, {"map", "S => [., .]", ""}, {"map-collapse", `S => \x (x count) % 3`, ""},
+	{"orderby", "S orderby .", ""}, {"orderby-desc", `S orderby \x [x count, x]`, ""}, {"order-fn", `S order \a \b a < b`, ""},
 	{"rank", "R rank (r: .a)", ""}, {"nest", "R nest |b|bs", ""}, {"nest-inv", "R nest ~|a|rest", ""},
 	{"join", "R <&> Q", ""}, {"compose", "R <-> Q", ""}, {"join-lr", "R -&> Q", ""}, {"join-rl", "R <&- Q", ""}, {"join-common", "R -&- Q", ""},
 	{"rel-map", "R => .a", ""}, {"rel-where", "R where .a % 2 = 0", ""}, {"rel-orderby", "R orderby [.a, .b]", ""},
-	{"count", "S count", ""}, {"sum-float", "(S => (. count) / 7) sum", ""}, {"sum-float-rel", "(R => .a / 10 + .b / 3) sum", ""},
-	{"mean", "(R => .a / 7) mean", ""}, {"max", "(S => . count) max", ""}, {"min", "(R => .a) min", ""},
+	{"count", "S count", ""}, {"sum-float", `S sum \x (x count) / 7`, "float-accumulation"}, {"sum-float-rel", "R sum .a / 10 + .b / 3", "float-accumulation"},
+	{"mean", "R mean .a / 7", "float-accumulation"}, {"sum-int", "R sum .a * 3 + .b", ""}, {"mean-int", "R mean .a * 2", ""}, {"max", `S max \x x count`, ""}, {"min", "R min .a", ""},
 	{"dict-repr", "D", ""}, {"dict-call", "D((D => .@ orderby .)(0))", ""}, {"dict-map", `D >> \v [v]`, ""}, {"dict-keys", "D => .@", ""},
 	{"dict-merge", "D +> {\"zz\": 1}", ""}, {"dict-orderby", "D orderby .@", ""}, {"dict-where", "D where .@value % 2 = 0", ""},
 	{"tuple-repr", "U", ""}, {"tuple-merge", "U +> (zz: 1, a0: 99)", ""}, {"tuple-in-set", "{U, U +> (q: 1)}", ""}, {"tuple-rest", "let (a0: x, ...r) = U; [x, r]", ""},
 	{"str-repr", "//str.repr(S)", ""}, {"str-repr-rel", "//str.repr(R)", ""}, {"interp", `$"${S orderby .::, }"`, ""}, {"interp-set", `$"${S}"`, ""},
 	{"seq-concat", "//seq.concat(S orderby . >> \\x [x])", ""}, {"seq-join", `//seq.join(",", S orderby . >> \x //str.repr(x))`, ""},
-	{"power", "^(S where (. count) < 2 || true) count", ""}, {"power-small", "^{(S orderby .)(0), (S orderby .)(1), (S orderby .)(2)}", ""},
+	{"power-small", "^{(S orderby .)(0), (S orderby .)(1), (S orderby .)(2)}", ""},
 	{"subset", "[S (<) T, S (<=) (S | T), (S & T) (<=) S, S <: {S}]", ""}, {"eq", "[S = T, (S | T) = (T | S), (S & T) = (T & S)]", ""},
-	{"cond-set", "cond S {{}: 0, _: S count}", ""}, {"let-set-pattern", "let {x, ...} = {(S orderby .)(0)}; x", ""},
-	{"set-of-sets", "S => {., 1}", ""}, {"set-flatten", "(S => {.}) => (. orderby .)(0)", ""},
+	{"cond-set", "cond S {{}: 0, _: S count}", ""},
+	{"set-of-sets", "S => {., 1}", ""}, {"set-flatten", `(S => {.}) => \x (x orderby .)(0)`, ""},
 	{"array-from-set", "(S orderby .) >> \\x {x}", ""}, {"array-index", "(S orderby .)((S count) - 1)", ""},
 	{"single-where", "(S where . = (S orderby .)(0)) single", ""},
 	{"rel-nest-unnest-count", "(R nest |b|bs) => (.bs count)", ""}, {"rel-project", "R => (b: .b)", ""},
 	{"json", "//encoding.json.encode(S orderby .)", ""}, {"json-dict", "//encoding.json.encode(D)", ""},
-	{"to-array-super", "S => (@: 0, @item: .)", "seq-super"}, {"to-str-super", "S => (@: (. count) % 2, @char: 97 + (. count) % 5)", "seq-super"},
-	{"to-bytes-super", "S => (@: (. count) % 3, @byte: 65 + (. count) % 7)", "seq-super"},
+	{"to-array-super", "S => (@: 0, @item: .)", "seq-super"}, {"to-str-super", `S => \x (@: (x count) % 2, @char: 97 + (x count) % 5)`, "seq-super"},
+	{"to-bytes-super", `S => \x (@: (x count) % 3, @byte: 65 + (x count) % 7)`, "seq-super"},
 	{"join-resugar-super", "(R => (@: .a % 2, x: .b)) <-> (R => (x: .b, @item: .a))", "seq-super"},
-	{"dict-multi-call", "(S => (@: (. count) % 2, @value: .))(0) ?: 7", "dict-multi"},
+	{"dict-multi-call", `(S => \x (@: (x count) % 2, @value: x))(0) ?: 7`, "dict-multi"},
 }
 
 // c07Program builds program #p: a let-prefix defining S,T,R,Q,D,U from the seed, then a template.
@@ -112,7 +112,7 @@ func c07Program(cfg *core.Config, p int) (src, base string, t c07tmpl) {
 		return "{" + strings.Join(ps, ", ") + "}"
 	}
 	kind := r.Intn(5)
-	if strings.Contains(t.src, "count) ") || strings.Contains(t.src, ". count") {
+	if strings.Contains(t.src, "x count") {
 		kind = []int{1, 3, 4}[r.Intn(3)] // templates using `. count` need set-valued members
 	}
 	S := mk(kind, n, 0)
@@ -128,15 +128,41 @@ func c07Program(cfg *core.Config, p int) (src, base string, t c07tmpl) {
 	R := rel1(r.Range(9, 30), "a", "b", r.Range(2, 5))
 	Q := rel1(r.Range(9, 20), "b", "c", r.Range(2, 6))
 	var dps, ups []string
-	for i := 0; i < r.Range(9, 30); i++ {
+	nd := r.Range(9, 30)
+	for i := 0; i < nd; i++ {
 		dps = append(dps, fmt.Sprintf("\"k%d\": %d", i, i*3%17))
 		ups = append(ups, fmt.Sprintf("a%d: %d", i, i))
 	}
 	core.Shuffle(r, dps)
 	core.Shuffle(r, ups)
-	src = fmt.Sprintf("let S = %s; let T = %s; let R = %s; let Q = %s; let D = {%s}; let U = (%s); %s",
-		S, T, R, Q, strings.Join(dps, ", "), strings.Join(ups, ", "), t.src)
+	// bind only the names the template mentions (keeps compile cost down)
+	defs := []struct{ name, val string }{{"S", S}, {"T", T}, {"R", R}, {"Q", Q}, {"D", "{" + strings.Join(dps, ", ") + "}"}, {"U", "(" + strings.Join(ups, ", ") + ")"}}
+	var sb strings.Builder
+	for _, d := range defs {
+		if c07Mentions(t.src, d.name) {
+			fmt.Fprintf(&sb, "let %s = %s; ", d.name, d.val)
+		}
+	}
+	src = sb.String() + t.src
 	return src, S, t
+}
+
+func c07Mentions(src, name string) bool {
+	for i := 0; i+len(name) <= len(src); i++ {
+		if src[i:i+len(name)] != name {
+			continue
+		}
+		before := i == 0 || !isIdentByte(src[i-1])
+		after := i+len(name) == len(src) || !isIdentByte(src[i+len(name)])
+		if before && after {
+			return true
+		}
+	}
+	return false
+}
+
+func isIdentByte(b byte) bool {
+	return b == '_' || b >= 'a' && b <= 'z' || b >= 'A' && b <= 'Z' || b >= '0' && b <= '9'
 }
 
 type c07rec struct {
